@@ -152,7 +152,7 @@ func (lineParser *LineParser) parseMarkup() (*ParseResult, error) {
 				Name:           characterAttribute,
 				Position:       0,
 				SourcePosition: 0,
-				Length:         match[1],
+				Length:         len([]rune(lineParser.input[:match[1]])),
 				Properties: map[string]Value{
 					characterAttributeNameProperty: nameValue,
 				},
